@@ -785,10 +785,15 @@ def c06_decision(ctx, p):
             elif len(t) < len(val):
                 cover_if(ctx, 'prefix-of-target', bytes_eq(val[:len(t)], t))
         out = ctx.impl.clean(src, ds, de, cfg)
+        only = p.get('only')   # cross-included under C02 / C04 ('non-member') or C03 ('member'): only the branch that instantiates that property is asserted
         if ctx.branch(member):
+            if only == 'non-member':
+                return
             ctx.cover('value-is-member')
             expect_exact(ctx, out, list(b"AB"), 'name value is a member of the target set but the element was not removed', 'member-not-removed')
         else:
+            if only == 'member':
+                return
             ctx.cover('value-not-member')
             expect_identity(ctx, src, out, 'name value is not a member of the target set but the source changed', 'non-member-removed')
     elif mode == 'no-value':
